@@ -1304,6 +1304,43 @@ def run_c13(ctx):
                 if nd <= 3:
                     ctx["broken"].append(f"correspondence (group verdict) detector {d}: model={a.get(d)} impl={b[d]} config={t!r}")
                 break
+    # last sentence of C13, the direction that is a theorem (C13_single_contract_path_reported): in a group of ONE transaction
+    # running ONE logic-sig, a path reported by the single-contract detector makes the group report the transaction
+    # (the converse fails on the implementation: known finding D32)
+    singles = []
+    for k in range(160 if ctx["tier"] == "quick" else 1600):
+        t = gen.random_program(rng, kf_free=True)[0]
+        if any(w in t for w in ("app_", "OnCompletion", "ApplicationID")):
+            continue
+        tl_ = t.split("\n")
+        singles.append((t, "\n".join([f"C 1 {len(tl_)}"] + tl_ + ["P 0", "T T Any 1 0 - - -"])))
+    sreqs = []
+    for k, (t, c) in enumerate(singles):
+        sreqs += [("analyze", f"s{k}", t, []), ("group", f"g{k}", c, [])]
+    _, si = corr.run_both(sreqs)
+    nsingle = 0
+    for k, (t, c) in enumerate(singles):
+        a, g = si.get(f"s{k}"), si.get(f"g{k}")
+        if not isinstance(a, dict) or not isinstance(g, dict) or "paths" not in a or "err" in g:
+            continue
+        nsingle += 1
+        for det in ("rekey-to", "can-close-account", "can-close-asset", "missing-fee-check"):
+            if a["paths"].get(det) and isinstance(a["paths"][det], list) and "T" not in g.get(det, []):
+                ctx["violations"].append((f"single contract: {det} reports the path {a['paths'][det][0]} but in the group of one transaction running this contract as its logic-sig {det} reports {g.get(det)}",
+                                          {"kind": "single-vs-group", "program": t, "config": c, "detector": det}))
+                break
+    cov["single_contract_vs_one_member_group"] = nsingle
+    # known findings about the group verdict: replayed on the implementation
+    for f in ctx["known"].get("findings", []):
+        if "C13" not in f["properties"] or "group_config" not in f:
+            continue
+        _, ki = corr.run_both([("group", "k", f["group_config"], []), ("analyze", "s", f["program"], [])], shards=1)
+        got_g = ki["k"].get(f["detector"]) if isinstance(ki["k"], dict) else None
+        got_s = ki["s"].get("paths", {}).get(f["detector"]) if isinstance(ki["s"], dict) else None
+        if got_g == f["expect_group_reported"] and got_s == f["expect_single_paths"]:
+            ctx["known_lines"].append(f"KNOWN-FINDING: property=C13 {f['id']}: {f['title']} (one-transaction group: {f['detector']} reports {got_g}; the single-contract detector reports paths {got_s})")
+        else:
+            cov.setdefault("known_findings_no_longer_reproduced", []).append(f["id"])
     cov["traces_validated_against_impl"] = len(reqs)
     cov["evaluations"] = len(reqs)
     cov["distinct_nontrivial"] = nvuln
